@@ -332,9 +332,11 @@ func init() {
 		Jobs: func(tier string) []JobDef {
 			jobs := checks["C15"].Jobs(tier)
 			jobs = append(jobs, vmJobs(tier, "VM04", "vmCheckNoFault", 2, nil)...)
+			jobs = append(jobs, loaderC14Jobs(tier)...)
+			jobs = append(jobs, loaderC26Jobs(tier)[1])
 			return jobs
 		},
-		Outside: []string{"lines_total vs the sum over all streams (whole program)", "prog_loads_total / prog_unloads_total / prog_load_errors_total (loader part, pending)", "log_count"}})
+		Outside: []string{"lines_total vs the sum over all streams (whole program)", "log_count"}})
 }
 
 // ---- C07 ----
